@@ -127,8 +127,6 @@ def systematic(rng=None):
     combinations, the non-zero value drawn per operator and context; without it all 16 pairs are used."""
     for ctx in CONTEXTS:
         def case(e, feats, can_fail=False, shape=None, pre=""):
-            if ctx == "elem-store" and e.startswith("(cond"):
-                e = "(bin + %s 0)" % e      # C01-elem-assign-ternary (a[i] = (c ? x : y) stores 0) belongs to C01
             return program(ctx, e, pre=pre), feats, _shape(ctx, e, can_fail, shape)
         # binary operators: both operands traced, all value combinations
         for op in BINOPS:
@@ -279,23 +277,29 @@ class TreeGen:
         return "(call %d %s)" % (F_ID, self.expr(d - 1))
 
     def branch(self, d):
-        """a branch of ?: - a call, an int literal or a nested ?: (finding C01-ternary-nonint-branch: any other
-        long-typed branch yields 0)"""
+        """a branch of ?: - mostly a call, an int literal or a nested ?: (the shapes that were safe before the repair of
+        finding C01-ternary-nonint-branch, repo commit 990fbc8), otherwise any operand tree"""
         r = self.r
         k = r.random()
-        if k < 0.55 or d <= 0:
+        if k < 0.45 or d <= 0:
             return tr(self.lab.next(), r.choice([0, 1, 2, 5])) if r.random() < 0.85 else (bad(self.lab.next()) if r.random() < 0.5 else str(r.choice([0, 1, 7])))
-        if k < 0.8:
+        if k < 0.6:
             return "(call %d %s)" % (F_ID, self.expr(d - 1))
-        return "(cond %s %s %s)" % (self.expr(d - 1), self.branch(d - 1), self.branch(d - 1))
+        old, self.multi_index = self.multi_index, False    # finding C01-ternary-multidim-segv: no multi-dimensional element inside a branch
+        try:
+            if k < 0.8:
+                return self.expr(d - 1)
+            return "(cond %s %s %s)" % (self.expr(d - 1), self.branch(d - 1), self.branch(d - 1))
+        finally:
+            self.multi_index = old
 
 
 def random_program(rng, avoid=True, multi_index=False):
     g = TreeGen(rng, avoid=avoid, multi_index=multi_index)
     ctx = rng.choice(CONTEXTS)
     e = g.expr(rng.choice([1, 2, 2, 3]))
-    if ctx == "elem-store" and (avoid or e.startswith("(cond")):
-        e = "(bin + %s 0)" % e          # finding C03-elem-assign-call-twice / C01-elem-assign-ternary: never a bare call / ?:
+    if ctx == "elem-store" and avoid and e.startswith("(call"):
+        e = "(bin + %s 0)" % e          # finding C03-elem-assign-call-twice: never a bare call
     if ctx in PRINT_CTX and avoid and (("(call %d " % F_BAD) in e or "(bin / " in e or "(bin % " in e):
         ctx = "init"                    # finding C03-println-retry: println re-evaluates an argument that failed
     return program(ctx, e), ("random", ctx) + tuple(sorted(g.feats))
